@@ -52,8 +52,8 @@ func runC04(tier string, seed uint64, rep *Report) {
 		rec([]types.MalType{S(hd)}, maxLen)
 	}
 	// calling closures with malformed parameter lists
-	for _, params := range ops {
-		for n := 0; n <= 2; n++ {
+	for _, params := range append(append([]types.MalType{}, ops...), V(S("x"), S("&")), V(S("x"), S("y"), S("&")), V(S("&"), S("x"), S("y")), V(S("x"), S("&"), S("&")), V(S("x"), S("&"), 1)) {
+		for n := 0; n <= 3; n++ {
 			call := []types.MalType{Call("fn", params, S("x"))}
 			for i := 0; i < n; i++ {
 				call = append(call, i)
@@ -133,12 +133,20 @@ func c04Compositions(r *Rng, rep *Report, tier string) {
 		"(throw {:boom 1})", "(throw \"s\")", "(undefined-fn 1)", "zz-undefined", "((fn [a] a))", "((fn [a] a) 1 2)", "(one-arg)", "(one-arg 1 2)",
 		"(nth [] 3)", "(first 5)", "(+ 1 \"s\")", "(1 2)", "((fn [& r] (first r)))", "(assert false)", "(swap! 5 inc)", "(deref 5)", "(apply + 1)",
 	}
-	fine := []string{"1", "(trace! :ok)", "(+ 1 2)", "(count log)", "[1 (trace! 2)]"}
+	failing = append(failing,
+		// a macro whose expansion is the empty list; parameter lists ending in a dangling &, called with enough arguments
+		"(m-empty)", "(m-splice)", "(-> ())", "((fn [a &] a) 1)", "((fn [a b &] a) 1 2)", "(m-dangling 1)")
+	fine := []string{"1", "(trace! :ok)", "(+ 1 2)", "(count log)", "[1 (trace! 2)]",
+		// special forms with fewer operands than usual, wherever they end up (often in tail position after longer forms)
+		"(if true)", "(if nil)", "(if (trace! 1))", "(quote)", "(do)", "(let [])", "(fn)", "(try)", "{:a (trace! 1)}", "(quasiquote)"}
 	pick := func(xs []string) string { return xs[r.Intn(len(xs))] }
 	var ctxs []func(inner string) string
 	ctxs = []func(string) string{
 		func(x string) string { return x },
 		func(x string) string { return "(do (trace! :a) " + x + ")" },
+		func(x string) string { return "(do 1 2 " + x + ")" },
+		func(x string) string { return "(let [a 1] 10 20 " + x + ")" },
+		func(x string) string { return "((fn [a b] " + x + ") 1 (trace! 2))" },
 		func(x string) string { return "(do " + x + " (trace! :after))" },
 		func(x string) string { return "(let [q 1] " + x + ")" },
 		func(x string) string { return "(let [q " + x + "] q)" },
@@ -161,7 +169,8 @@ func c04Compositions(r *Rng, rep *Report, tier string) {
 		func(x string) string { return "(try 1 (catch e 2) (finally " + x + "))" },
 		func(x string) string { return "(try (throw 1) (catch e " + x + ") (finally (trace! (count log))))" },
 	}
-	prelude := "(def log (atom [])) (def one-arg (fn [a] a)) (defmacro mm-map (fn [f xs] `(map ~f ~xs))) (defmacro mm-apply (fn [f xs] `(apply ~f ~xs)))"
+	prelude := "(def log (atom [])) (def one-arg (fn [a] a)) (defmacro mm-map (fn [f xs] `(map ~f ~xs))) (defmacro mm-apply (fn [f xs] `(apply ~f ~xs)))" +
+		" (defmacro m-empty (fn [& xs] xs)) (defmacro m-splice (fn [& form] `(~@form))) (defmacro m-dangling (fn [x &] x))"
 	n := 1200
 	if tier == "thorough" {
 		n = 30000
